@@ -52,7 +52,7 @@ def check(ctx):
     if not ctx.build_go("unitdrv"):
         return ctx.finish()
     ok, out = ctx.lean_obligations("C11")
-    if ok:
+    if ok or ctx.oracle_available():
         # corpus first
         for f in sorted(glob.glob(os.path.join(C.VERIF, "corpus", "C11", "*.trace"))):
             model = "gate" if "gate" in os.path.basename(f) else ("initflow" if "initflow" in f else "invokeflow")
